@@ -97,7 +97,7 @@ def leaf_of(kind, garg):
         return "Ct"
     if k == "P":
         return "P"
-    if k in ("G", "OptG", "ArrG"):
+    if k in ("G", "OptG", "ArrG", "VecG", "NestG", "WrapG", "RefG"):
         return garg
     return None
 
@@ -130,6 +130,20 @@ def fp_field(kind, garg, side, slot, a, gen=0, default=False):
         return "B(%s)" % L(a)
     if k == "RefT":
         return "R(%s)" % L(a)
+    if k == "VecG":
+        if default or a == 0:
+            return "V[]"
+        return "V[%s]" % L(a - 1)
+    if k == "NestG":
+        if default or a == 0:
+            return "N"
+        if a == 1:
+            return "S(N)"
+        return "S(S(%s))" % L(0)
+    if k == "WrapG":
+        return "Wr(%s)" % L(a)
+    if k == "RefG":
+        return "R(%s)" % L(a)
     if k == "PhG":
         return "Ph"
     if k == "U8":
@@ -140,7 +154,7 @@ def fp_field(kind, garg, side, slot, a, gen=0, default=False):
 
 
 def is_nan(kind, garg, a):
-    return leaf_of(kind, garg) == "P" and kind.key in ("P", "G") and a == 2
+    return leaf_of(kind, garg) == "P" and kind.key in ("P", "G", "WrapG", "RefG") and a == 2
 
 
 def builtin_eq(kind, garg, a, b):
